@@ -227,6 +227,7 @@ def _tid(e, st, h, what):
 
 def x_pthread_join(e, st, fr, args, name):
     _init(st)
+    if cancel_point(e, st): return SWITCHED
     j = _tid(e, st, args[0], 'pthread_join')
     t = st.threads[j]
     joined = st.env.get('joined', ())
@@ -258,18 +259,27 @@ def x_pthread_self(e, st, fr, args, name):
 
 
 def x_pthread_cancel(e, st, fr, args, name):
+    """deferred cancellation (the default cancel type): the target ends at its next cancellation point - in this
+    model the blocking calls: sleep/usleep/nanosleep/sched_yield (which stands for select/read in the socket models),
+    pthread_join, sem_wait, pthread_cond_wait.  Plain code after the request still runs."""
     _init(st)
     j = _tid(e, st, args[0], 'pthread_cancel')
-    t = st.threads[j]
-    if t.status != 'done':
-        # cancellation is deferred to a cancellation point in reality; the model ends the thread at its current SP
-        for f in t.frames:
-            for oid in f.allocas:
-                o = st.wobj(oid); o.live = False; o.data = None
-        t.frames[:] = []
-        t.status = 'done'
-        st.env['wseq'] += 1
+    if st.threads[j].status != 'done':
+        st.env['cancel'] = st.env.get('cancel', ()) + (j,)
     return 0
+
+
+def cancel_point(e, st):
+    """called at the entry of blocking calls: ends the calling thread if it has been cancelled"""
+    c = st.env.get('cancel', ())
+    if st.threads is None or st.cur not in c:
+        return False
+    for f in st.frames:
+        for oid in f.allocas:
+            o = st.wobj(oid); o.live = False; o.data = None
+    del st.frames[:]
+    thread_exit(e, st, None)
+    return True
 
 
 def x_mutex_init(e, st, fr, args, name):
@@ -337,6 +347,7 @@ def x_sem_post(e, st, fr, args, name):
 
 def x_sem_wait(e, st, fr, args, name):
     _init(st)
+    if name != 'sem_trywait' and cancel_point(e, st): return SWITCHED
     k = _key(e, st, args[0], name)
     if sched_point(e, st, fr): return SWITCHED
     d = st.env.get('sem', {})
@@ -369,6 +380,7 @@ def x_cond_wait(e, st, fr, args, name):
     cur = st.threads[st.cur]
     cw = st.env.get('cw', {})
     rec = cw.get(cur.tid)
+    if rec is None and cancel_point(e, st): return SWITCHED
     if rec is None:
         d = st.env.get('mtx', {})
         m = d.get(mk)
@@ -414,6 +426,7 @@ def x_yield(e, st, fr, args, name):
         st.env['clock'] = st.env.get('clock', 1700000000 * 1000000) + (us * 1000000 if name == 'sleep' else us)
     if st.threads is None:
         return 0
+    if cancel_point(e, st): return SWITCHED
     cur = st.threads[st.cur]
     if cur.skip:
         cur.skip = False
